@@ -126,6 +126,41 @@ class E2Session(SessionBase):
             self._check_partition()
             self._check_usable_bands()
 
+    def do_retype(self, which, pick):
+        """what-if on the live network: one single-band amplifier is replaced with another model of the library whose
+        band differs (the way auto-design sets a model: params.update_params), then the OMS list is built again on the
+        same network object; the usable bands of the new list are judged against the amplifiers as they are now"""
+        from gnpy.core.elements import Edfa
+        if self.discarded or self.world['kind'] != 'net' or getattr(self, 'cut', None) is not None:
+            return {'kind': 'skip'}
+        amps = sorted((n for n in self.network.nodes() if isinstance(n, Edfa) and len(n.params.bands) == 1),
+                      key=lambda n: n.uid)
+        if not amps:
+            return {'kind': 'skip'}
+        amp = amps[which % len(amps)]
+        i = getattr(amp, 'oms_id', None)
+        if i is None:
+            return {'kind': 'skip'}
+        common = self._common_bands(i)
+        cur = (amp.params.bands[0]['f_min'], amp.params.bands[0]['f_max'])
+        cands = []
+        for name, lib in sorted(self.equipment['Edfa'].items()):
+            bands = getattr(lib, 'bands', None)
+            if lib.type_def != 'variable_gain' or not bands or len(bands) != 1:
+                continue
+            b = (bands[0]['f_min'], bands[0]['f_max'])
+            if b != cur and any(min(b[1], hi) - max(b[0], lo) >= 1e12 for lo, hi in common):
+                cands.append(name)
+        if not cands:
+            return {'kind': 'no-other-band'}
+        name = cands[pick % len(cands)]
+        amp.params.update_params(self.equipment['Edfa'][name].__dict__)
+        amp.type_variety = amp.params.type_variety
+        self.st.faults['amplifier_replaced_by_a_model_with_another_band'] += 1
+        out = self.do_rebuild(check_same=False)
+        self.nontrivial = True
+        return {'kind': f'retyped:{name}:{out["kind"]}'}
+
     def do_cut(self, which):
         """what-if on the live network: both directions of one link are taken out of the graph (the element objects keep
         whatever earlier builds left on them), then the OMS list is built again"""
@@ -768,6 +803,11 @@ def make_machine(prop, tier, cfg):
                 self.sess.apply('cut', {'which': which})
 
         if prop == 'C15':
+            @precondition(lambda self: self.sess is not None and self.sess.world['kind'] == 'net')
+            @rule(which=st.integers(0, 40), pick=st.integers(0, 9))
+            def retype(self, which, pick):
+                self.sess.apply('retype', {'which': which, 'pick': pick})
+
             @precondition(lambda self: self.sess is not None and self.sess.world['kind'] == 'net')
             @rule(which=st.integers(0, 30), dl=st.integers(0, 12), dh=st.integers(0, 12))
             def widen(self, which, dl, dh):
